@@ -517,7 +517,7 @@ class PandasModelBase(
             return True
         if len(column_names) < 1:
             return False
-        counts = table.groupby(column_names, observed=True).size()
+        counts = table.groupby(column_names, observed=True, dropna=False).size()
         return max(counts) <= 1
 
     # bigger stuff
@@ -736,7 +736,7 @@ class PandasModelBase(
                 )
             subframe[standin_name] = 1
             if len(op.partition_by) > 0:
-                opframe = subframe.groupby(op.partition_by, observed=True)
+                opframe = subframe.groupby(op.partition_by, observed=True, dropna=False)
                 #  Groupby preserves the order of rows within each group.
                 # https://pandas.pydata.org/pandas-docs/stable/reference/api/pandas.DataFrame.groupby.html
             else:
@@ -855,7 +855,7 @@ class PandasModelBase(
                     )
         res["_data_table_temp_col"] = 1
         if len(op.group_by) > 0:
-            res = res.groupby(op.group_by, observed=True)
+            res = res.groupby(op.group_by, observed=True, dropna=False)
         if len(op.ops) > 0:
             cols = {}
             for k, opk in op.ops.items():
